@@ -295,6 +295,51 @@ func genC15(r *Run) {
 					overridden[5] = true
 				}
 			}
+			// ... and for the option-setting ones: the last WithGeneric / WithoutOption / WithMessageType / WithLeaseTime on a
+			// code decides whether the option is there and what it holds (an empty value is a value)
+			type optWord struct {
+				known, present bool
+				val            []byte
+			}
+			lastOpt := map[byte]optWord{}
+			for j := 0; j+2 < len(mods); j += 3 {
+				k := int(numArg(mods[j]))
+				x, y := mods[j+1], mods[j+2]
+				switch k {
+				case 11:
+					if len(x) == 1 {
+						lastOpt[x[0]] = optWord{true, true, y}
+					}
+				case 12:
+					if len(x) == 1 {
+						lastOpt[x[0]] = optWord{true, false, nil}
+					}
+				case 13:
+					lastOpt[53] = optWord{true, true, []byte{byte(numArg(x))}}
+				case 17:
+					lastOpt[51] = optWord{true, true, be32b(uint32(numArg(x)))}
+				case 6: // copied from the source if it has a value there: depends on the source
+					if len(x) == 1 {
+						lastOpt[x[0]] = optWord{}
+					}
+				case 14: // merges into whatever list is there
+					lastOpt[55] = optWord{}
+				case 16:
+					lastOpt[1] = optWord{}
+				case 7, 15: // reply / relay touch no option the list can name ... except that relay sets 82? leave those codes alone
+					lastOpt[82] = optWord{}
+				}
+			}
+			for c, w := range lastOpt {
+				if !w.known {
+					continue
+				}
+				gv, has := pf.Options[c]
+				if has != w.present || (w.present && !bytes.Equal(gv, w.val)) {
+					r.Fail("c15-last-modifier-does-not-prevail", trunc(Case{eV4Build, full}.Line(), 1500),
+						fmt.Sprintf("the caller's last word on option %d is present=%v value=%x, the packet has present=%v value=%x", c, w.present, w.val, has, gv))
+				}
+			}
 			for k, v := range last {
 				if overridden[k] {
 					continue
